@@ -92,16 +92,27 @@ func (dec *Decoder) readStringAsBytes(utf16Length int) (data []byte, safe bool) 
 			data = make([]byte, 0, utf16Length*3)
 		}
 		data = append(data, buf...)
-		if !dec.loadMore() {
-			if remains < 0 {
-				if dec.Error == nil {
-					dec.Error = ErrInvalidUTF8
+		// -remains bytes of the last character lie beyond this buffer; the
+		// reader may deliver them in several pieces
+		for need := -remains; ; {
+			if !dec.loadMore() {
+				if need > 0 {
+					if dec.Error == nil {
+						dec.Error = ErrInvalidUTF8
+					}
 				}
+				return
 			}
-			return
+			n := dec.tail - dec.head
+			if n > need {
+				n = need
+			}
+			data = append(data, dec.buf[dec.head:dec.head+n]...)
+			dec.head += n
+			if need -= n; need == 0 {
+				break
+			}
 		}
-		data = append(data, dec.buf[dec.head:dec.head-remains]...)
-		dec.head -= remains
 		length = dec.tail - dec.head
 	}
 }
